@@ -244,6 +244,19 @@ impl GenParams {
                 lone_last: true,
                 ..b
             },
+            "snap" => GenParams {
+                // C16: no favored / locked (the snapshot format does not represent them)
+                pkgs: (2, 6),
+                p_lock: 0.0,
+                p_favored: 0.0,
+                p_union: 0.3,
+                // a root union cannot be seeded into a snapshot (seeds are names, version
+                // sets and solvables), so the problems use single version sets
+                p_root_union: 0.0,
+                p_excl: 0.12,
+                p_unknown: 0.08,
+                ..b
+            },
             "small" => GenParams {
                 pkgs: (2, 4),
                 cands: (1, 3),
